@@ -8,7 +8,8 @@
   save_strategy, resume)` on directory content `fs`: the file operations it performs until it returns or raises, and what it
   returns (`.error e` = it raised).  `crash fs ops k` = directory left by a kill after `k` byte-granular operations.
   `Reach … fs`: first run (either `resume` flag) on the empty directory killed anywhere, then any number of `resume=True`
-  runs killed anywhere.  Protocol `.repaired` = fixes/C25_atomic_marker_and_files.diff; `.asFound` = /repo.
+  runs killed anywhere.  Protocol `.repaired` = fixes/C25_atomic_marker_and_files.diff + fixes/C25_latest_invalidate_marker.diff;
+  `.atomicOnly` = only the first of the two; `.asFound` = /repo before both.
 -/
 import NiftyVerif.Lemmas.CrashCl
 import NiftyVerif.Lemmas.CrashClLatest
@@ -50,8 +51,26 @@ theorem uninterrupted_all (sys : Sys S) (hl : Lawful sys) (s0 : S) (total : Nat)
 
 /-! non-vacuity: the driver's concrete system is lawful; a reachable directory with marker 0 and a half-written sample -/
 theorem natSys_lawful (n : Nat) (hn : 0 < n) : Lawful (natSys n) :=
-  ⟨hn, fun s => by simp [natSys], fun _ => by simp [natSys], fun _ => by simp [natSys], by simp [natSys],
-   fun i => by simp [natSys]⟩
+  ⟨hn, fun s => by simp [natSys], fun s h => by simp [natSys] at h, fun _ => by simp [natSys], fun _ => by simp [natSys],
+   by simp [natSys], fun i => by simp [natSys]⟩
+
+/-- MAP runs (n_samples = 0: `SampleList`, one sample file, no mean file; a stale mean file is unlinked) are instances of the
+    same theorems: the MAP system is lawful, so `crash_safe_all` / `crash_safe_latest` apply to it -/
+theorem natSys_map_lawful : Lawful (natSys 1 false) :=
+  ⟨by decide, fun s => by simp [natSys], fun _ _ => rfl, fun _ => by simp [natSys], fun _ => by simp [natSys],
+   by simp [natSys], fun i => by simp [natSys]⟩
+
+def mapCrash (k : Nat) : FS Path := crash FS.empty (run (natSys 1 false) .repaired .latest false 3 0 FS.empty).1 k
+def mapOutcome (k : Nat) : Option Nat :=
+  match (run (natSys 1 false) .repaired .latest true 3 0 (mapCrash k)).2 with
+  | .ok s => some s
+  | .error _ => none
+
+/-- a MAP run with strategy `latest`, killed after the sample of iteration 1 has been moved into place but before the
+    marker is written again: no marker (invalidated), no mean file, sample of iteration 1 — the resumed run starts from
+    scratch and returns state 3 -/
+example : mapCrash 60 .marker = none ∧ mapCrash 60 (.mean .latest) = none ∧
+    mapCrash 60 (.sample .latest 0) = some [2, 0, 255] ∧ mapOutcome 60 = some 3 := by decide
 
 def natRun (proto : Proto) (strat : Strategy) (resume : Bool) (total : Nat) (fs : FS Path) :=
   run (natSys 2) proto strat resume total 0 fs
@@ -59,7 +78,7 @@ def natRun (proto : Proto) (strat : Strategy) (resume : Bool) (total : Nat) (fs 
 def natCrash (proto : Proto) (strat : Strategy) (total k : Nat) : FS Path :=
   crash FS.empty (natRun proto strat false total FS.empty).1 k
 
-example : Reach (natSys 2) .repaired .all 3 0 (natCrash .repaired .all 3 52) := Reach.first false 52
+example : Reach (natSys 2) .repaired .all 3 0 (natCrash .repaired .all 3 59) := Reach.first false 59
 
 /-- outcome of `resume=True` on a crashed directory, as a small decidable value: none = raised -/
 def resumeOutcome (proto : Proto) (strat : Strategy) (total k : Nat) : Option Nat :=
@@ -73,7 +92,7 @@ def resumeError (proto : Proto) (strat : Strategy) (total k : Nat) : Option Err 
   | .error e => some e
 
 /-- in that directory the marker says 0, a sample temp file of iteration 1 is half written, resume returns state 3 -/
-example : natCrash .repaired .all 3 52 .marker = some [48] ∧ resumeOutcome .repaired .all 3 52 = some 3 := by decide
+example : natCrash .repaired .all 3 59 .marker = some [48] ∧ resumeOutcome .repaired .all 3 52 = some 3 := by decide
 
 /-! **The protocol as found in /repo is not crash safe** (documented witnesses, replayed on the real code by the check;
     system `natSys 2`, 2 iterations, byte-granular operation indices). -/
@@ -81,71 +100,65 @@ example : natCrash .repaired .all 3 52 .marker = some [48] ∧ resumeOutcome .re
 /-- (a) the marker is truncated in place: killed right after `open(last_finished_iteration, "w")` of iteration 1,
     `int('')` raises on resume -/
 theorem asFound_marker_truncated : ∃ k, natCrash .asFound .all 2 k .marker = some [] ∧
-    resumeError .asFound .all 2 k = some .markerParse := ⟨62, by decide⟩
+    resumeError .asFound .all 2 k = some .markerParse := ⟨74, by decide⟩
 
 /-- (b) the marker is written BEFORE the energy history: killed after the marker of iteration 1 is complete,
     `energy_history_iteration_1` does not exist, resume raises FileNotFoundError (the last iteration is excluded from this
     window: then the driver returns before reading it) -/
 theorem asFound_marker_before_history : ∃ k, natCrash .asFound .all 3 k .marker = some [49] ∧
-    natCrash .asFound .all 3 k (.ehist (.iter 1)) = none ∧ resumeError .asFound .all 3 k = some .missing := ⟨64, by decide⟩
+    natCrash .asFound .all 3 k (.ehist (.iter 1)) = none ∧ resumeError .asFound .all 3 k = some .missing := ⟨77, by decide⟩
 
 /-- (c) and before the minisanity history: the resumed run gets past loading and raises in the middle of iteration 2 -/
 theorem asFound_marker_before_minisanity_history : ∃ k,
     natCrash .asFound .all 3 k (.ehist (.iter 1)) = some [1, 253] ∧ natCrash .asFound .all 3 k (.mhist (.iter 1)) = none ∧
-    resumeError .asFound .all 3 k = some .missing := ⟨72, by decide⟩
+    resumeError .asFound .all 3 k = some .missing := ⟨87, by decide⟩
 
 /-- (d) strategy `latest` overwrites the only copy in place: killed inside the save of sample 0 of iteration 1 the set
     `latest.*` cannot be loaded -/
 theorem asFound_latest_in_place : ∃ k, natCrash .asFound .latest 2 k .marker = some [48] ∧
-    resumeOutcome .asFound .latest 2 k = none := ⟨37, by decide⟩
+    resumeOutcome .asFound .latest 2 k = none := ⟨56, by decide⟩
 
-/-! **Known finding (not repaired): strategy `latest` after the repair.**  Every single file is replaced atomically, but the
-    set `latest.*` is not: between the first `os.replace` onto a `latest.*` file of iteration j ≥ 1 and the `os.replace` of
-    the marker of iteration j the directory holds files of iteration j under a marker that says j-1.
+/-! ### strategy `latest`
 
-    Full statement that does NOT hold (kept visible):
-      theorem crash_safe_latest : Reach sys .repaired .latest total s0 fs →
-          (run sys .repaired .latest true total s0 fs).2 = .ok (sAfter sys s0 total)
-    `latest_window_witness` is the `decide`d counter-example; what holds outside the window is `crash_safe_latest_partial`
-    (below). -/
-theorem latest_window_witness : ∃ k, natCrash .repaired .latest 2 k .marker = some [48] ∧
-    natCrash .repaired .latest 2 k (.mean .latest) = some [2, 254] ∧
-    resumeOutcome .repaired .latest 2 k ≠ some 2 := ⟨70, by decide⟩
+    With temp + `os.replace` alone (`Proto.atomicOnly`, the first repair) every single file is replaced atomically but the SET
+    `latest.*` is not: between the first move onto a `latest.*` file of iteration j ≥ 1 and the move of the marker the
+    directory holds files of iteration j under a marker that says j-1 (`atomicOnly_latest_window_witness`).
+    The second repair (`Proto.repaired`, fixes/C25_latest_invalidate_marker.diff) removes the marker before `latest.*` is
+    touched: in the window there is no marker, a resumed run starts from scratch and — iterations being deterministic —
+    ends with the same result. -/
 
-/-! ### strategy `latest`, repaired protocol: what IS proved (`crash_safe_latest_partial`)
+/-- the window of the first repair: marker 0, mean of iteration 1 already in place, resume returns a wrong state -/
+theorem atomicOnly_latest_window_witness : ∃ k, natCrash .atomicOnly .latest 2 k .marker = some [48] ∧
+    natCrash .atomicOnly .latest 2 k (.mean .latest) = some [2, 254] ∧
+    resumeOutcome .atomicOnly .latest 2 k ≠ some 2 := ⟨80, by decide⟩
 
-    `GoodL`: marker absent, or marker = i and latest.* / histories / random state complete and from iteration i.
-    `pend false pre`: scanning the operations `pre`, has a latest.<k|mean>.pickle file been moved into place since the marker
-    was last moved?  The window of the known finding is exactly `pend = true` while a marker exists. -/
-
-/-- from a `GoodL` directory `resume=True` never raises and returns the uninterrupted (samples, mean) -/
-theorem resume_correct_latest (sys : Sys S) (hl : Lawful sys) (s0 : S) (total : Nat) (fs : FS Path)
-    (hg : GoodL sys s0 total fs) :
-    (run sys .repaired .latest true total s0 fs).2 = .ok (sAfter sys s0 total) :=
-  (runL_good hl s0 total true hg (Or.inl rfl)).1
-
-/-- every crash point outside the window (flag down, or no marker yet) of a run started on a `GoodL` directory leaves a
-    `GoodL` directory -/
-theorem latest_outside_window_good (sys : Sys S) (hl : Lawful sys) (s0 : S) (total : Nat) (fs : FS Path)
-    (hg : GoodL sys s0 total fs) (pre : List (Op Path))
-    (hp : pre <+: (run sys .repaired .latest true total s0 fs).1)
-    (hout : pend false pre = false ∨ execs fs pre .marker = none) : GoodL sys s0 total (execs fs pre) := by
-  rcases hout with h | h
-  · exact (runL_good hl s0 total true hg (Or.inl rfl)).2 pre hp h
-  · exact Or.inl h
-
-/-- **crash_safe_latest_partial**: any number of runs, each killed at any byte-granular crash point OUTSIDE the window
-    (`ReachL`), then `resume=True`: the uninterrupted result.  (The excluded region is the known finding
-    C25-latest_not_staged; `latest_window_witness` is a point inside it.) -/
-theorem crash_safe_latest_partial (sys : Sys S) (hl : Lawful sys) (s0 : S) (total : Nat) (fs : FS Path)
-    (hr : ReachL sys total s0 fs) :
+/-- **save strategy `latest`, repaired protocol: crash safe at EVERY crash point** — from every reachable directory a
+    `resume=True` start does not raise and returns exactly the uninterrupted (samples, mean). -/
+theorem crash_safe_latest (sys : Sys S) (hl : Lawful sys) (s0 : S) (total : Nat) (fs : FS Path)
+    (hr : Reach sys .repaired .latest total s0 fs) :
     (run sys .repaired .latest true total s0 fs).2 = .ok (sAfter sys s0 total) :=
   (runL_good hl s0 total true (reachL_good hl s0 total hr) (Or.inl rfl)).1
 
-/-- non-vacuity: a kill in the middle of the temp file of sample 0 of iteration 1 is outside the window … -/
-example : ReachL (natSys 2) 3 0 (natCrash .repaired .latest 3 48) := ReachL.first false 48 (Or.inl (by decide))
-/-- … and the witness point of the known finding is inside it (flag up, marker present) -/
-example : pend false ((natRun .repaired .latest false 2 FS.empty).1.take 70) = true ∧
-    natCrash .repaired .latest 2 70 .marker = some [48] := by decide
+/-- single-crash form for `latest` -/
+theorem crash_safe_latest_single (sys : Sys S) (hl : Lawful sys) (s0 : S) (total k : Nat) (r0 : Bool) :
+    (run sys .repaired .latest true total s0
+      (crash FS.empty (run sys .repaired .latest r0 total s0 FS.empty).1 k)).2 = .ok (sAfter sys s0 total) :=
+  crash_safe_latest sys hl s0 total _ (Reach.first r0 k)
+
+/-- the marker implies completeness for `latest` too: if it exists it is `digits i`, and latest.*, both histories and the
+    random state are complete and from iteration i -/
+theorem marker_implies_complete_latest (sys : Sys S) (hl : Lawful sys) (s0 : S) (total : Nat) (fs : FS Path)
+    (hr : Reach sys .repaired .latest total s0 fs) (t : Bytes) (ht : fs .marker = some t) :
+    ∃ i, i < total ∧ t = sys.digits i ∧ GoodAtL sys s0 i fs := by
+  rcases reachL_good hl s0 total hr with h | ⟨i, hi, hg⟩
+  · rw [h] at ht; cases ht
+  · refine ⟨i, hi, ?_, hg⟩
+    have := hg.1; rw [ht] at this; injection this
+
+/-- non-vacuity: the same kill point that was fatal for the first repair (index shifted by the one `remove` per iteration):
+    the marker is gone, the resumed run starts from scratch and returns the right state -/
+example : natCrash .repaired .latest 2 82 .marker = none ∧
+    natCrash .repaired .latest 2 82 (.mean .latest) = some [2, 254] ∧
+    resumeOutcome .repaired .latest 2 82 = some 2 := by decide
 
 end NiftyVerif.C25
